@@ -7,6 +7,7 @@ import (
 	"math/big"
 	"math/bits"
 	"os"
+	"sync"
 	"time"
 
 	"github.com/consensys/gnark-crypto/ecc"
@@ -262,6 +263,9 @@ func Prove(r1cs *cs.R1CS, pk *ProvingKey, fullWitness witness.Witness, opts ...b
 	solverOpts := opt.SolverOpts[:len(opt.SolverOpts):len(opt.SolverOpts)]
 
 	privateCommittedValues := make([][]fr.Element, len(commitmentInfo))
+	// the commitment hints of independent commitments may run concurrently in
+	// the solver: the hash function is shared and not safe for concurrent use
+	var hashToFieldLock sync.Mutex
 	privateCommittedValuesDevice := make([]icicle_core.DeviceSlice, len(commitmentInfo))
 
 	// override hints
@@ -292,9 +296,11 @@ func Prove(r1cs *cs.R1CS, pk *ProvingKey, fullWitness witness.Witness, opts ...b
 		<-ckBasisMsmDone
 		proof.Commitments[i] = *projectiveToGnarkAffine(proofCommitmentIcicle[0])
 
+		hashToFieldLock.Lock()
 		opt.HashToFieldFn.Write(constraint.SerializeCommitment(proof.Commitments[i].Marshal(), hashed, (fr.Bits-1)/8+1))
 		hashBts := opt.HashToFieldFn.Sum(nil)
 		opt.HashToFieldFn.Reset()
+		hashToFieldLock.Unlock()
 		nbBuf := fr.Bytes
 		if opt.HashToFieldFn.Size() < fr.Bytes {
 			nbBuf = opt.HashToFieldFn.Size()
